@@ -187,7 +187,10 @@ func c10NulProtocol(c *Ctx, r *R) {
 		ec := s.ec
 		r.Site(1)
 		key := fmt.Sprintf("site:%s:%s#%d", fname(ec.Fn), ec.Sub, s.ord)
-		var problems []string
+		// one obligation per way in which a name can be altered at this site, so that a listed
+		// finding (e.g. "no -z") does not hide a different defect added later at the same site
+		type problem struct{ kind, msg string }
+		var problems []problem
 		hasZ := false
 		for _, a := range ec.Args {
 			if v, ok := eng.ConstString(a); ok && (v == "-z" || v == "--null") {
@@ -195,7 +198,7 @@ func c10NulProtocol(c *Ctx, r *R) {
 			}
 		}
 		if !hasZ {
-			problems = append(problems, "no -z in the argument vector (git C-quotes names containing quotes, backslashes, control or non-ASCII bytes)")
+			problems = append(problems, problem{"no-z", "no -z in the argument vector (git C-quotes names containing quotes, backslashes, control or non-ASCII bytes)"})
 		}
 		term, ok := terminalOf(ec.Call.Value(), 0)
 		if !ok {
@@ -204,12 +207,13 @@ func c10NulProtocol(c *Ctx, r *R) {
 		}
 		if pathEmitting[ec.Sub] {
 			if term.Method() == "executeString" {
-				problems = append(problems, "output read through executeString, which trims whitespace off the first/last path")
+				problems = append(problems, problem{"trimmed-read", "output read through executeString, which trims whitespace off the first/last path"})
 			}
 			out := term.Result(0)
 			if out != nil {
 				tn := taint(term.Fn, out)
 				splitNUL := false
+				kinds := map[string]int{}
 				for _, k := range eng.Calls(term.Fn, false) {
 					n := k.Name()
 					if !strings.HasPrefix(n, "strings.") && !strings.HasPrefix(n, "bytes.") {
@@ -217,6 +221,13 @@ func c10NulProtocol(c *Ctx, r *R) {
 					}
 					if k.NArgs() == 0 || !tn[k.Arg(0)] {
 						continue
+					}
+					add := func(kind, msg string) {
+						kinds[kind]++
+						if kinds[kind] > 1 {
+							kind = fmt.Sprintf("%s#%d", kind, kinds[kind])
+						}
+						problems = append(problems, problem{kind, msg})
 					}
 					switch k.Method() {
 					case "Split", "SplitN", "SplitAfter":
@@ -227,17 +238,28 @@ func c10NulProtocol(c *Ctx, r *R) {
 						case isC && k.Method() == "SplitN" && sep == "\t":
 							// first TAB only is fine when n == 2
 							if n, ok := eng.ConstInt(k.Arg(2)); !ok || n != 2 {
-								problems = append(problems, fmt.Sprintf("%s(…, %q) beyond the first separator at %s", k.Method(), sep, c.Rel(k.Pos())))
+								add("split-tab", fmt.Sprintf("%s(…, %q) beyond the first separator at %s", k.Method(), sep, c.Rel(k.Pos())))
 							}
 						default:
-							problems = append(problems, fmt.Sprintf("strings.%s(…, %q) on data containing path names at %s (a name containing that separator is truncated / split)", k.Method(), sep, c.Rel(k.Pos())))
+							kind := "split-other"
+							switch sep {
+							case "\n":
+								kind = "split-newline"
+							case " ":
+								kind = "split-space"
+							case "\t":
+								kind = "split-tab"
+							}
+							add(kind, fmt.Sprintf("strings.%s(…, %q) on data containing path names at %s (a name containing that separator is truncated / split)", k.Method(), sep, c.Rel(k.Pos())))
 						}
-					case "Fields", "TrimSpace", "Trim", "TrimRight", "TrimLeft", "TrimSuffix", "TrimPrefix":
-						problems = append(problems, fmt.Sprintf("strings.%s on data containing path names at %s", k.Method(), c.Rel(k.Pos())))
+					case "Fields", "FieldsFunc":
+						add("split-whitespace", fmt.Sprintf("strings.%s on data containing path names at %s (a name containing white space is split into several names)", k.Method(), c.Rel(k.Pos())))
+					case "TrimSpace", "Trim", "TrimRight", "TrimLeft", "TrimSuffix", "TrimPrefix", "TrimFunc", "Replace", "ReplaceAll", "ToLower", "ToUpper", "Unquote":
+						add("altered-"+k.Method(), fmt.Sprintf("strings.%s on data containing path names at %s", k.Method(), c.Rel(k.Pos())))
 					}
 				}
 				if !splitNUL {
-					problems = append(problems, "output is not split on \"\\x00\"")
+					problems = append(problems, problem{"not-nul-split", "output is not split on \"\\x00\""})
 				}
 			}
 		} else {
@@ -247,7 +269,9 @@ func c10NulProtocol(c *Ctx, r *R) {
 		if len(problems) == 0 {
 			r.Ok(key, ec.Call.Pos(), "`git %s` uses the NUL protocol end to end", ec.Sub)
 		} else {
-			r.Bad(key, ec.Call.Pos(), "`git %s` in %s does not move path names verbatim: %s", ec.Sub, fname(ec.Fn), strings.Join(problems, "; "))
+			for _, p := range problems {
+				r.Bad(key+":"+p.kind, ec.Call.Pos(), "`git %s` in %s does not move path names verbatim: %s", ec.Sub, fname(ec.Fn), p.msg)
+			}
 		}
 	}
 	// a path-emitting command hidden behind a dynamic argv
